@@ -488,7 +488,7 @@ def _static_tie():
     return got == [sorted(sched.REQ_ATTRS), sorted(sched.RESP_ATTRS)], got
 
 
-def run_impl(case):
+def _run_impl(case):
     ok, got = _static_tie()
     if not ok:
         return dict(kind=case['kind'], tie='ts_props names differ from the model: %s' % got)
@@ -499,6 +499,19 @@ def run_impl(case):
     obs = sched.run_arrangement(case)
     obs['kind'] = 'arr'
     return obs
+
+
+def run_impl(case):
+    obs = _run_impl(case)
+    first = sched.COMPLAINTS.get(json.dumps(case, sort_keys=True))
+    if first and isinstance(obs, dict):
+        obs['first_complaint'] = first       # (a replay file is written from a re-run: keep what was said first)
+    return obs
+
+
+def oracle(case, obs):
+    # wall-clock limits are not verdicts: see sched.judge
+    return sched.judge(case, obs, _run_impl, _oracle)
 
 
 def encode(case):
@@ -563,7 +576,7 @@ def ops_failure(cmds, outs):
     return None
 
 
-def oracle(case, obs):
+def _oracle(case, obs):
     if obs.get('tie'):
         return obs['tie']
     if obs.get('hang') is True and case['kind'] == 'ops':
